@@ -80,6 +80,29 @@ func stageAChild(c *vkit.Ctx) {
 		return
 	}
 	inputFile := filepath.Join(c.WorkDir(), "current-input")
+	if lo == 0 || lo == 1000000 {
+		// "Malformed records are rejected and counted", for the one malformation that is decidable without a reference parser:
+		// an otherwise perfect line whose PRI is a number outside 0..191 - each presented three times in a row to the same
+		// parser (whatever the parser remembers about the previous line must not let the repetition through), with a valid
+		// line in between now and then.
+		valid := "<134>1 2021-03-04T05:06:07.000001+02:00 h1 appA 1001 src1 - [Cls] in between"
+		for _, pri := range []int{192, 193, 199, 200, 255, 256, 500, 998, 999} {
+			for rep := 0; rep < 3; rep++ {
+				in := []byte(fmt.Sprintf("<%d>1 2021-03-04T05:06:07.000001+02:00 h1 appA 1001 src1 - [Cls] out of range pri", pri))
+				_ = os.WriteFile(inputFile, in, 0o644)
+				c.LogCase(fmt.Sprintf("A:%s:%d:pri%d:rep%d", cfg, limit, pri, rep))
+				res, _ := w.feed(in)
+				c.Eval(1)
+				c.Event("stageA_out_of_range_pri_lines", 1)
+				if res.status != "rejected" && res.status != "panic" {
+					c.Violation("malformed-accepted:pri-out-of-range", fmt.Sprintf("line with PRI %d (presentation %d in a row) was not rejected: %s (config %s)", pri, rep+1, res.status, cfg), witnessOf(in))
+				}
+			}
+			if pri%2 == 0 {
+				w.feed([]byte(valid))
+			}
+		}
+	}
 	for i := lo; i < lo+n; i++ {
 		r := c.Rand("stageA/"+cfg, i)
 		in := genInput(r, limit)
@@ -161,6 +184,9 @@ func main() {
 	case "stageB":
 		stageBChild(c)
 		c.Finish()
+	case "rstprobe":
+		rstProbeChild(c)
+		c.Finish()
 	}
 	c.Rule("stage A: boundary-biased hostile byte strings (14 generator families: garbage, odd PRI forms, token deletion/duplication/emptying, truncation at any offset, NIL and short timestamps, " +
 		"oversized header fields and messages around the limits, invalid UTF-8 in key and label fields, extraction-pattern edges, e-mail and escape edges, multi-line, binary splices) through the real " +
@@ -190,6 +216,7 @@ func main() {
 	for i := 0; i < c.N(8, 120); i++ {
 		specs = append(specs, vkit.ChildSpec{Mode: "stageB", Tag: fmt.Sprintf("B-%03d", i), Timeout: 10 * time.Minute, Args: map[string]string{"idx": strconv.Itoa(i)}})
 	}
+	specs = append(specs, vkit.ChildSpec{Mode: "rstprobe", Tag: "rstprobe", Timeout: 5 * time.Minute})
 	results := c.RunChildren(specs, 12)
 	for _, r := range results {
 		if r.Partial != nil {
